@@ -23,7 +23,12 @@ RULE = ("honest pairings over random codes/identifiers/keys/salts; adversarial: 
         "every type byte, single-bit flips of every length byte, type bytes replaced by the neighbouring item's / the step's other / fragment / separator types, length bytes off by one / 0 / 255, "
         "value bytes, one byte inserted or deleted at every boundary, neighbouring encoded items swapped, both item orders - every bit of every byte of M2 in every run (part 1 is replayed on one "
         "genuine M2, whole pairings for what it lets through) and of M4/M6/sub-TLV in the thorough tier - decoded with the expected filter, decoded whole as BLE does, and through IpDiscovery, "
-        "CoAPDiscovery and the GATT driver; judged by the harness's own TLV8 reading of the bytes that travelled (wire_verdict). non-trivial = distinct (mutation class, outcome class)")
+        "CoAPDiscovery and the GATT driver; judged by the harness's own TLV8 reading of the bytes that travelled (wire_verdict); pair-setup over LINKS THAT FAIL (stream links): histories of "
+        "async_start_pairing / finish_pairing calls (right, another, a malformed code; finish_pairing called again after a failure; a new start) on one BleDiscovery (found by a real BleController from an "
+        "advertisement, only bleak's connect replaced by a GATT link), IpDiscovery (in-memory TCP) and CoAPDiscovery (aiocoap context replaced) in which the link is lost before / after each of M1..M6, at the "
+        "n-th GATT fragment write / read, at a connection attempt or while idle, once or several times, so that the library's own retries and reconnects run (virtual time) against an accessory that opens a NEW "
+        "SRP session (new salt, new B) for every M1, forgets it with the link, and in chosen sessions is a wrong-code accessory or alters one reply - judged by the accessory's own verdict on every M3 / M5 it "
+        "receives in its CURRENT session and by what it accepted during the call that returned. non-trivial = distinct (mutation class, outcome class)")
 TRUSTED = ["reference SRP server and accessory (harness/refacc.py)", "Lean Real crypto (validated per run)"]
 ASSUMPTIONS = ["SRP values themselves are C02's subject: the model takes K and the expected server proof from the real SrpClient of the same exchange",
                "ephemerals pinned by patching os.urandom (srp) and Ed25519PrivateKey.generate (protocol) in the differential streams only; the history streams leave the library's random source alone and "
@@ -246,6 +251,7 @@ def run(ctx: Ctx, driver: Driver):
     # wrong-code accessory: the model is given the reference server's K/M2 which the real client does not share - the outcome (AuthenticationError at M4) must still agree
     discovery_level(ctx, rng, rb)
     history_level(ctx, rng, rb)
+    link_level(ctx, rng, rb)
     compare_with_model(ctx, "setup", cases, outs, lines, driver, canon=canon_wrongcode)
     compare_with_model(ctx, "m5", m5cases, m5outs, m5lines, driver)
 
@@ -1206,10 +1212,768 @@ def run_interleaved(ctx, case, rb):
     return problems
 
 
+# ------------------------------------------------------------------------------------------------------------------
+# (f) pair-setup over LINKS THAT FAIL.  One history = one accessory, one discovery object of the real library
+# (BleDiscovery found by a real BleController from an advertisement, IpDiscovery on the in-memory network,
+# CoAPDiscovery with aiocoap's client context replaced) and a list of calls the user makes - async_start_pairing,
+# the finish_pairing callable it returned (right code, another code, a malformed code; called again after a failure),
+# the link dropping while nothing is in flight - together with a list of faults: the link is lost when the n-th request
+# Mk is on its way (the accessory never sees it), after the accessory answered Mk (the reply never arrives), at the n-th
+# GATT write / read of a PDU fragment, at the n-th connection attempt.  Only the radio / the TCP network / aiocoap's
+# context and the clock are replaced: the library's own retries (retry_bluetooth_connection_error around both BLE
+# entry points, HomeKitConnection's reconnects) run, in virtual time.
+# The accessory is conformant and written here: EVERY M1 opens a new SRP session (new salt, new B), a session does not
+# outlive its BLE link / TCP connection nor a refused proof, an accessory that accepted an M5 is paired and refuses M1.
+# Per session it may instead be programmed with another code or have one reply altered (field or wire level).
+# Oracles - property text and the accessory's own books only:
+#   * M3 / M5 that a controller holding the right code sends into a session of the honest accessory verify against the
+#     accessory's CURRENT session ("the controller's own exchange message is accepted by a conformant accessory");
+#   * a call returns an object only if the accessory accepted an M5 during that call in a session that was not
+#     tampered with, and the record is that exchange's (accessory identity, accepted controller key, matching LTSK);
+#   * a call with another / a malformed code, or whose last session was with a wrong-code accessory / an altered reply,
+#     raises and returns nothing, whichever attempt it is;
+#   * when the accessory accepted M5 and M6 travelled undisturbed the call returns; a call during which no fault
+#     happened, made with the right code to the honest unpaired accessory, completes - for async_start_pairing, for
+#     the first finish_pairing of a start, and on BLE (where finish_pairing restarts pair-setup itself) for every one;
+#   * the SRP public value A never repeats within a history.
+
+
+class LinkLost(Exception):
+    def __init__(self, fault, reply=None):
+        super().__init__(str(fault))
+        self.fault, self.reply = fault, reply
+
+
+class LinkWorld:
+    """the accessory and the fault schedule of one history"""
+
+    def __init__(self, case, rb):
+        self.case, self.rb = case, rb
+        self.transport = case["transport"]
+        self.pin = case["pin"]
+        self.ident = refacc.Identity(rb, acc_id=case["acc_id"].encode())
+        self.plan = {int(k): v for k, v in (case.get("sessions") or {}).items()}
+        self.faults = [dict(f) for f in case.get("faults", [])]
+        self.bound = self.transport != "coap"  # a pair-setup session dies with the BLE link / TCP connection
+        self.counts = {}
+        self.fired = []       # (index into faults, call index)
+        self.sessions = []    # {"peer", "how", "call"} per SRP session the accessory opened
+        self.cur = None       # the session requests are answered in
+        self.paired = None    # the session in which M5 was accepted
+        self.paired_call = None
+        self.accept_mark = 0  # number of faults that had fired when M5 was accepted
+        self.verdicts = []    # (call index, session number, "m3-ok" | "m3-refused" | "m5-ok" | "m5-refused" | "m<k>-no-session")
+        self.call = -1
+        self.connections = 0
+
+    def tick(self, at, msg=None):
+        key = (at, msg)
+        self.counts[key] = n = self.counts.get(key, 0) + 1
+        for k, f in enumerate(self.faults):
+            if f["at"] == at and f.get("msg") == msg and f.get("nth", 1) == n and all(k != j for j, _ in self.fired):
+                self.fired.append((k, self.call))
+                return f
+        return None
+
+    def new_connection(self):
+        self.connections += 1
+        if self.bound:
+            self.cur = None
+
+    def link_down(self):
+        if self.bound:
+            self.cur = None
+
+    def deliver(self, items):
+        """a complete pair-setup request reached the accessory's end of the link; returns the reply bytes"""
+        d = {int(k): bytes(v) for k, v in items}
+        st = d[6][0] if d.get(6) else 0
+        f = self.tick("req", st)
+        if f:
+            raise LinkLost(f)
+        reply = self.answer(items, d, st)
+        f = self.tick("rep", st + 1)
+        if f:
+            raise LinkLost(f, reply)
+        return reply
+
+    def answer(self, items, d, st):
+        if st == 1:
+            if self.paired is not None:
+                return refacc.tlv([(6, b"\x02"), (7, b"\x06")])  # kTLVError_Unavailable: already paired
+            n = len(self.sessions) + 1
+            how = self.plan.get(n, "honest")
+            salt = self.rb(16)
+            if how == "wrong-code":
+                # programmed with a code that is neither the one of this history nor the "other" code a user types by mistake
+                peer = Peer([p for p in PINS if p != self.pin][-1], self.ident, self.rb, salt)
+            elif isinstance(how, dict):
+                peer = Peer(self.pin, self.ident, self.rb, salt, mutation=how["mutation"], reverse=how.get("reverse", False))
+            else:
+                peer = Peer(self.pin, self.ident, self.rb, salt, reverse=bool(self.case.get("reverse")))
+            self.cur = {"peer": peer, "how": how, "call": self.call, "n": n}
+            self.sessions.append(self.cur)
+            return self._ask(self.cur, items)
+        s = self.cur
+        if s is None:
+            self.verdicts.append((self.call, len(self.sessions), f"m{st}-no-session"))
+            return refacc.tlv([(6, bytes([(st + 1) & 255])), (7, b"\x01")])
+        peer = s["peer"]
+        if st == 3:
+            reply = self._ask(s, items)
+            ok = 3 in d and peer.srv is not None and d.get(4) == peer.srv.M1
+            self.verdicts.append((self.call, s["n"], "m3-ok" if ok else "m3-refused"))
+            if not ok:
+                peer.proved = False
+                self.cur = None  # HAP 5.6.4: the attempt is over
+            return reply
+        if st == 5:
+            before = peer.accepted
+            reply = self._ask(s, items)
+            ok = peer.proved and peer.accepted is not None and before is None
+            self.verdicts.append((self.call, s["n"], "m5-ok" if ok else "m5-refused"))
+            if ok:
+                self.paired, self.paired_call, self.accept_mark = s, self.call, len(self.fired)
+            self.cur = None  # accepted: pair-setup is over, the accessory is paired; refused: the attempt is over
+            return reply
+        return self._ask(s, items)
+
+    def _ask(self, s, items):
+        reply = _reply_bytes(s["peer"], items)
+        if s["peer"].applied and "applied_call" not in s:
+            s["applied_call"] = self.call
+        return reply
+
+
+def session_kind(s, ci):
+    """('honest' | 'void' | 'adversarial', label) of a session as call `ci` met it, from what the accessory actually did in it: an
+    altered M2 stays with everything that is built on it; an altered M4 / M6 belongs to the call it was sent in (where a session
+    outlives a failed call - CoAP - a later call runs a new, untouched M3..M6 in it)"""
+    peer, how = s["peer"], s["how"]
+    if how == "wrong-code":
+        return "adversarial", "wrong-code"
+    if isinstance(how, dict):
+        if not peer.applied or (how["mutation"]["msg"] != 2 and s.get("applied_call") != ci):
+            return "honest", "honest"
+        label = mutation_kind(how["mutation"])
+        if peer.wire is not None:
+            v = wire_verdict(peer.wire["msg"], peer.wire["where"], peer.wire["genuine"], peer.wire["sent"])
+            return {"genuine": "honest", "void": "void"}.get(v, "adversarial"), label
+        return "adversarial", label
+    return "honest", "honest"
+
+
+LINK_ERRORS = ("bleak", "eof", "pipe")
+
+
+def _link_error(f):
+    from bleak.exc import BleakError
+    how = f.get("err", "bleak")
+    if how == "eof":
+        return EOFError("D-Bus connection lost")
+    if how == "pipe":
+        return BrokenPipeError(32, "Broken pipe")
+    return BleakError("Not connected" if how == "bleak" else str(how))
+
+
+class _LinkGatt:
+    """the radio: a GATT link to the accessory's pairing service (Pairing Features + Pair Setup characteristics, HAP-BLE
+    PDUs in fragments of the MTU, long replies as FragmentData.../FragmentLast) that can be lost at any write or read"""
+    address = "AA:BB:CC:DD:EE:FF"
+
+    class _Char:
+        properties = ["read", "write"]
+        max_write_without_response_size = None
+
+        def __init__(self, uuid, iid):
+            self.uuid, self.iid, self.handle = uuid, iid, iid
+
+    def __init__(self, world, loop, callback, fs, chunk, features):
+        self.world, self.loop, self.callback = world, loop, callback
+        self.fs, self.chunk, self.features = fs, chunk, features
+        self.is_connected = True
+        self.rx, self.reads, self.pending = {}, {}, []
+        self.die_on_read = None
+
+    async def get_characteristic(self, service_uuid, characteristic_uuid, iid=None):
+        from aiohomekit.model.characteristics import CharacteristicsTypes
+        return self._Char(characteristic_uuid, 0x21 if characteristic_uuid == CharacteristicsTypes.PAIRING_FEATURES else 0x22)
+
+    async def get_characteristic_iid(self, char):
+        return char.iid
+
+    def determine_fragment_size(self, overhead, handle):
+        return self.fs - overhead
+
+    async def clear_cache(self):
+        return True
+
+    async def disconnect(self):
+        if self.is_connected:
+            self.is_connected = False
+            self.world.link_down()
+            self.loop.call_soon(self.callback, self)
+        return True
+
+    def lose(self):
+        """the link is gone (nothing is raised here)"""
+        if self.is_connected:
+            self.is_connected = False
+            self.world.link_down()
+            self.loop.call_soon(self.callback, self)
+
+    def _gate(self, kind):
+        from bleak.exc import BleakError
+        if not self.is_connected:
+            raise BleakError("Not connected")
+        f = self.world.tick(kind)
+        if f:
+            self.lose()
+            raise _link_error(f)
+
+    async def write_gatt_char(self, handle, data, response=None):
+        import struct
+        self._gate("write")
+        data = bytes(data)
+        if data[0] & 0x80:
+            p = self.rx.get(handle.iid)
+            if p is None:
+                return
+            p["body"] += data[2:]
+        else:
+            p = self.rx[handle.iid] = {"opcode": data[1], "tid": data[2], "need": struct.unpack("<H", data[5:7])[0] if len(data) >= 7 else 0, "body": data[7:]}
+        if len(p["body"]) < p["need"]:
+            return
+        del self.rx[handle.iid]
+        if p["opcode"] == 0x03:
+            payload = bytes([self.features])
+        else:
+            value = refacc.untlv(p["body"]).get(1, b"")
+            if value == b"\x0c\x00" and self.pending:
+                payload = self.pending.pop(0)
+            else:
+                self.pending = []
+                try:
+                    reply = self.world.deliver(list(refacc.untlv(value).items()))
+                except LinkLost as lost:
+                    if lost.reply is None:
+                        # the link went down while the request was in the air: the write fails
+                        self.lose()
+                        raise _link_error(lost.fault) from None
+                    # the accessory answered, the link goes down before the answer is read
+                    self.lose()
+                    return
+                if self.chunk and len(reply) > self.chunk:
+                    parts = [reply[i:i + self.chunk] for i in range(0, len(reply), self.chunk)]
+                    self.pending = [refacc.tlv([(0x0C, c)]) for c in parts[:-1]] + [refacc.tlv([(0x0D, parts[-1])])]
+                    payload = self.pending.pop(0)
+                else:
+                    payload = reply
+        body = refacc.tlv([(1, payload)])
+        pdu = bytes([0x02, p["tid"], 0]) + struct.pack("<H", len(body)) + body
+        self.reads[handle.iid] = [pdu[:self.fs]] + [bytes([0x82, p["tid"]]) + pdu[i:i + self.fs - 2] for i in range(self.fs, len(pdu), self.fs - 2)]
+
+    async def read_gatt_char(self, handle):
+        self._gate("read")
+        q = self.reads.get(handle.iid)
+        return q.pop(0) if q else b""
+
+
+def _adv(acc_id, name="Acc"):
+    """a HAP-BLE advertisement of an unpaired accessory (HAP 7.4.2.1), encoded here"""
+    import struct
+    from bleak.backends.device import BLEDevice
+    from bleak.backends.scanner import AdvertisementData
+    data = bytes([0x06, 0x31, 0x01]) + bytes.fromhex(acc_id.replace(":", "")) + struct.pack("<HHBB", 5, 1, 1, 2) + b"\x3c\xb9\xeb\x0e"
+    device = BLEDevice(address=_LinkGatt.address, name=name, details=None)
+    adv = AdvertisementData(local_name=name, manufacturer_data={76: data}, service_data={}, service_uuids=[], rssi=-60, platform_data=((),), tx_power=-127)
+    return device, adv
+
+
+class _BleSide:
+    def __init__(self, env, world, case):
+        self.env, self.world, self.case = env, world, case
+        self.clients = []
+
+    def __enter__(self):
+        import aiohomekit.controller.ble.connection as bleconn
+        from bleak_retry_connector import BleakConnectionError, BleakNotFoundError
+        world, case, loop = self.world, self.case, self.env.loop
+
+        async def connect(client_class, device, name, disconnected_callback=None, max_attempts=None, **kw):
+            f = world.tick("connect")
+            if f:
+                raise (BleakNotFoundError if f.get("err") == "notfound" else BleakConnectionError)(f"{name}: failed to connect")
+            world.new_connection()
+            c = _LinkGatt(world, loop, disconnected_callback or (lambda c: None), case.get("fs", 512), case.get("chunk", 0), case.get("features", 0))
+            self.clients.append(c)
+            return c
+        self.patch = mock.patch.object(bleconn, "retry_establish_connection", connect)
+        self.patch.start()
+        return self
+
+    def __exit__(self, *a):
+        self.patch.stop()
+
+    async def discover(self):
+        from aiohomekit.characteristic_cache import CharacteristicCacheMemory
+        from aiohomekit.controller.ble.controller import BleController
+        self.controller = BleController(CharacteristicCacheMemory())
+        self.controller._device_detected(*_adv(self.case["acc_id"]))
+        self.disc = self.controller.discoveries[self.case["acc_id"].lower()]
+        return self.disc
+
+    def advertise(self):
+        self.controller._device_detected(*_adv(self.case["acc_id"]))
+
+    def drop(self):
+        for c in self.clients:
+            c.lose()
+
+    async def close(self):
+        self.drop()
+
+
+class _IpSide:
+    def __init__(self, env, world, case):
+        from harness import simnet
+        self.env, self.world, self.case = env, world, case
+        self.net = simnet.Net(env.loop)
+        self.bufs = {}
+        self.net.handler = self.handler
+        self.net.on_connect = lambda t: world.new_connection()
+        inner = self.net.start_connection
+
+        async def start_connection(addr_infos, **kw):
+            if world.tick("connect"):
+                raise ConnectionRefusedError(111, "Connection refused")
+            return await inner(addr_infos, **kw)
+        self.net.start_connection = start_connection
+
+    def __enter__(self):
+        self.cm = self.net.patched()
+        self.cm.__enter__()
+        return self
+
+    def __exit__(self, *a):
+        return self.cm.__exit__(*a)
+
+    def _end(self, t, how):
+        self.world.link_down()
+        (t.peer_close if how == "close" else t.peer_reset)()
+
+    def handler(self, t, data):
+        import re
+        loop = self.env.loop
+        buf = self.bufs.get(t, b"") + data
+        while b"\r\n\r\n" in buf:
+            head, rest = buf.split(b"\r\n\r\n", 1)
+            m = re.search(rb"(?i)content-length:\s*(\d+)", head)
+            n = int(m.group(1)) if m else 0
+            if len(rest) < n:
+                break
+            body, buf = rest[:n], rest[n:]
+            http = lambda reply: b"HTTP/1.1 200 OK\r\nContent-Type: application/pairing+tlv8\r\nContent-Length: %d\r\n\r\n" % len(reply) + reply  # noqa: E731
+            try:
+                reply = self.world.deliver(list(refacc.untlv(body).items()))
+            except LinkLost as lost:
+                how = lost.fault.get("how", "reset")
+                if lost.reply is not None and how == "partial":
+                    whole = http(lost.reply)
+                    loop.call_soon(t.feed, whole[:len(whole) - max(1, len(lost.reply) // 2)])
+                    how = "close"
+                loop.call_soon(self._end, t, how)
+                buf = b""
+                break
+            loop.call_soon(t.feed, http(reply))
+        self.bufs[t] = buf
+
+    async def discover(self):
+        from harness import rcsim
+        from aiohomekit.controller.ip.discovery import IpDiscovery
+        self.controller = _controller()
+        self.disc = IpDiscovery(self.controller, rcsim.description([1]))
+        return self.disc
+
+    def drop(self):
+        for t in list(self.net.open):
+            self._end(t, "reset")
+
+    async def close(self):
+        try:
+            await self.disc.close()
+        except Exception:  # noqa: BLE001
+            pass
+
+
+class _CoapSide:
+    def __init__(self, env, world, case):
+        self.env, self.world, self.case = env, world, case
+
+    def __enter__(self):
+        import aiohomekit.controller.coap.connection as coapc
+        import aiocoap.error as coaperr
+        world, loop = self.world, self.env.loop
+
+        class Resp:
+            def __init__(self, payload):
+                self.payload = payload
+
+        class Req:
+            def __init__(self, msg):
+                f = loop.create_future()
+                try:
+                    f.set_result(Resp(world.deliver(list(refacc.untlv(bytes(msg.payload)).items()))))
+                except LinkLost as lost:
+                    how = lost.fault.get("how", "timeout")
+                    if how == "neterr":
+                        f.set_exception(coaperr.NetworkError("network unreachable"))
+                    elif how == "rst":
+                        f.set_exception(coaperr.ConRetransmitsExceeded("retransmissions exceeded"))
+                    # "timeout": no answer ever arrives
+                except Exception as e:  # noqa: BLE001
+                    f.set_exception(e)
+                self.response = f
+
+        class Client:
+            def request(self, msg):
+                return Req(msg)
+
+            async def shutdown(self):
+                return None
+
+        class FakeContext:
+            @staticmethod
+            async def create_client_context():
+                world.new_connection()
+                return Client()
+        self.patch = mock.patch.object(coapc, "Context", FakeContext)
+        self.patch.start()
+        return self
+
+    def __exit__(self, *a):
+        self.patch.stop()
+
+    async def discover(self):
+        import dataclasses
+        from harness import rcsim
+        from aiohomekit.controller.coap.discovery import CoAPDiscovery
+        self.controller = _controller()
+        description = dataclasses.replace(rcsim.description([1]), address="fd00::1:2", addresses=["fd00::1:2"], port=5683, type="_hap._udp.local.")
+        self.disc = CoAPDiscovery(self.controller, description)
+        return self.disc
+
+    def drop(self):
+        self.world.cur = None  # the accessory lost power for a moment
+
+    async def close(self):
+        return None
+
+
+LINK_SIDES = {"ble": _BleSide, "ip": _IpSide, "coap": _CoapSide}
+MALFORMED_PIN = "0314-5154"
+
+
+def run_links(ctx, env, case, rb):
+    """run one history over failing links; returns (problems [(signature, what, index of the call)], trace)"""
+    import asyncio
+    world = LinkWorld(case, rb)
+    transport = case["transport"]
+    other_pin = next(p for p in PINS if p != case["pin"])
+    problems, trace = [], []
+    seen_A = {}
+
+    async def play():
+        with LINK_SIDES[transport](env, world, case) as side:
+            disc = await side.discover()
+            closure, closure_fresh, tainted = None, False, False
+            try:
+                for ci, call in enumerate(case["calls"]):
+                    world.call = ci
+                    if call[0] == "drop":
+                        side.drop()
+                        tainted, closure_fresh = True, False
+                        await asyncio.sleep(0)
+                        trace.append(("drop", "-"))
+                        continue
+                    if call[0] == "adv":
+                        # the accessory is heard again (BLE: the scanner hands the controller a new device object / advertisement)
+                        if hasattr(side, "advertise"):
+                            side.advertise()
+                        trace.append(("adv", "-"))
+                        continue
+                    if call[0] == "start":
+                        coro = disc.async_start_pairing("hall")
+                    elif closure is None:
+                        trace.append((call[0], "skipped"))
+                        continue
+                    else:
+                        used = {"right": case["pin"], "wrong": other_pin, "malformed": MALFORMED_PIN}[call[1]]
+                        coro = closure(used)
+                    n_fired, n_sess, n_verd, n_req = len(world.fired), len(world.sessions), len(world.verdicts), sum(len(s["peer"].requests) for s in world.sessions)
+                    paired_before, cur_before = world.paired is not None, world.cur
+                    task = asyncio.ensure_future(coro)
+                    done, _ = await asyncio.wait({task}, timeout=3600)
+                    res, exc, hung = None, None, False
+                    if not done:
+                        hung = True
+                        task.cancel()
+                        try:
+                            await task
+                        except BaseException:  # noqa: BLE001
+                            pass
+                    else:
+                        try:
+                            res = task.result()
+                        except BaseException as e:  # noqa: BLE001
+                            exc = e
+                    ctx.evaluations += 1
+                    fired = [world.faults[k] for k, _ in world.fired[n_fired:]]
+                    sessions = world.sessions[n_sess:]
+                    verdicts = world.verdicts[n_verd:]
+                    disturbed = bool(fired) or tainted
+                    if call[-1] != "malformed":
+                        tainted = False  # (a malformed code is refused before anything is sent: the next call still meets the dropped link)
+                    out = "hung" if hung else ("err:" + type(exc).__name__ if exc is not None else ("closure" if call[0] == "start" else "paired"))
+                    trace.append((" ".join(call), out))
+                    tag = "+".join(sorted(f["at"] + (str(f["msg"]) if f.get("msg") is not None else "") for f in fired)) or "none"
+                    ctx.dist[f"links:{transport}:{call[0]}{':' + call[1] if len(call) > 1 else ''}:faults={tag}:{out}"] += 1
+                    ctx.nontrivial.add(("links", transport, " ".join(call), tag, out, tuple(v for _, _, v in verdicts)))
+                    where = (f"call {ci + 1} ({' '.join(call)}, {transport}, code {case['pin']}; calls so far {[c + ' -> ' + o for c, o in trace]}; "
+                             f"link faults during this call {fired or 'none'}; the accessory opened {len(world.sessions)} SRP session(s) on {world.connections} connection(s) so far, "
+                             f"its verdicts during this call {[f'session {n}: {v}' for _, n, v in verdicts] or 'none'})")
+                    # -- freshness of the controller's public value, at the accessory
+                    for s in world.sessions:
+                        for req in s["peer"].requests:
+                            d = dict(req)
+                            if d.get(6) == b"\x03" and 3 in d:
+                                first = seen_A.setdefault(d[3], (s["n"], id(req)))
+                                if first[1] != id(req):
+                                    problems.append(("setup/ephemeral-reused", f"{where}: the SRP public value A={hx(d[3][:8])}... sent into session {first[0]} was sent again into session {s['n']}", ci))
+                    # -- what the controller sent into sessions of the honest accessory while holding the right code
+                    pin_right = call[0] == "finish" and call[1] == "right"
+                    for _, n, v in verdicts:
+                        s = world.sessions[n - 1]
+                        if pin_right and session_kind(s, ci)[0] == "honest" and v in ("m3-refused", "m5-refused"):
+                            m = v[:2]
+                            problems.append((f"setup/links/{transport}/{m}-refused",
+                                             f"{where}: the setup code given is the accessory's and the accessory is honest, yet the {m.upper()} the controller sent did not verify against the accessory's current SRP "
+                                             f"session #{n} (salt {hx(s['peer'].salt[:4])}..., opened by the M1 of call {s['call'] + 1}) - the accessory counted a failed authentication attempt", ci))
+                    # -- what the call gave back
+                    if call[0] == "start":
+                        if exc is None and not hung:
+                            closure, closure_fresh = res, not disturbed
+                            if not callable(res):
+                                problems.append((f"setup/links/{transport}/start-result", f"{where}: async_start_pairing returned {type(res).__name__}, not a callable", ci))
+                        else:
+                            closure, closure_fresh = None, False
+                            if not disturbed and not paired_before and all(session_kind(x, ci)[0] == "honest" for x in sessions):
+                                problems.append((f"setup/links/{transport}/rejected-genuine", f"{where}: async_start_pairing against an honest unpaired accessory over an undisturbed link "
+                                                 f"{'never returned' if hung else 'failed with ' + type(exc).__name__ + ': ' + str(exc)[:80]}", ci))
+                    else:
+                        accepted_now = world.paired is not None and world.paired_call == ci
+                        s = world.paired if accepted_now else (world.cur if world.cur is not None else (sessions[-1] if sessions else None))
+                        skind, slabel = session_kind(s, ci) if s is not None else ("none", "none")
+                        if exc is None and not hung:
+                            rec = getattr(res, "pairing_data", None)
+                            if call[1] != "right":
+                                problems.append((f"setup/links/{transport}/{call[1]}-code/returned", f"{where}: a pairing was returned ({str(rec)[:60]}...) although the code given is not the accessory's", ci))
+                            elif not accepted_now:
+                                problems.append((f"setup/links/{transport}/returned", f"{where}: a pairing was returned ({str(rec)[:60]}...) although the accessory accepted no M5 during this call", ci))
+                            elif skind == "adversarial":
+                                problems.append((f"setup/links/{transport}/{slabel}/returned", f"{where}: a pairing was returned ({str(rec)[:60]}...) although a reply of the session it came from was altered "
+                                                 f"({s['how']})", ci))
+                            elif skind == "honest":
+                                peer, bad = s["peer"], []
+                                if not isinstance(rec, dict):
+                                    bad.append(f"the object returned carries no pairing data ({type(res).__name__})")
+                                else:
+                                    if rec.get("AccessoryPairingID") != world.ident.acc_id.decode() or rec.get("AccessoryLTPK") != world.ident.acc_ltpk.hex():
+                                        bad.append("the accessory identity returned is not the one authenticated in this exchange")
+                                    if rec.get("iOSPairingId") != peer.accepted[0] or rec.get("iOSDeviceLTPK") != peer.accepted[1].hex():
+                                        bad.append("the controller identity returned is not the one this accessory accepted")
+                                    else:
+                                        try:
+                                            sk = ed25519.Ed25519PrivateKey.from_private_bytes(bytes.fromhex(rec["iOSDeviceLTSK"]))
+                                            if sk.public_key().public_bytes(**refacc.RAW) != peer.accepted[1]:
+                                                bad.append("the controller's private key does not match the public key the accessory accepted")
+                                        except Exception:  # noqa: BLE001
+                                            bad.append("the controller's private key is unusable")
+                                    if side.controller.pairings.get("hall") is not res:
+                                        bad.append("the pairing kept under the alias is not the one returned")
+                                if bad:
+                                    problems.append((f"setup/links/{transport}/record", f"{where}: " + "; ".join(bad), ci))
+                            closure_fresh = False
+                            if not problems:
+                                return  # paired: the history is over
+                        else:
+                            after_accept = accepted_now and len(world.fired) > world.accept_mark
+                            if pin_right and accepted_now and skind == "honest" and not after_accept and not hung:
+                                problems.append((f"setup/links/{transport}/rejected-genuine", f"{where}: the accessory accepted the controller's M5 and its M6 travelled undisturbed, yet finish_pairing failed with "
+                                                 f"{type(exc).__name__}: {str(exc)[:80]}", ci))
+                            elif (pin_right and not disturbed and not paired_before and (transport == "ble" or closure_fresh)
+                                  and all(session_kind(x, ci)[0] == "honest" for x in sessions + ([cur_before] if cur_before is not None else []))):
+                                problems.append((f"setup/links/{transport}/rejected-genuine", f"{where}: the code is right, the accessory honest and unpaired and nothing happened to the link during this call, yet finish_pairing "
+                                                 f"{'never returned' if hung else 'failed with ' + type(exc).__name__ + ': ' + str(exc)[:80]}", ci))
+                            elif (pin_right and not disturbed and not paired_before and not hung and transport != "ble"
+                                  and all(session_kind(x, ci)[0] == "honest" for x in sessions + ([cur_before] if cur_before is not None else []))):
+                                ctx.dist[f"links-observed:{transport}:finish_pairing called again after a failed one does not restart pair-setup and fails"] += 1
+                            if call[1] != "malformed":
+                                closure_fresh = False
+                    if problems:
+                        return
+            finally:
+                try:
+                    await side.close()
+                except Exception:  # noqa: BLE001
+                    pass
+    env.loop.run_until_complete(play())
+    return problems, trace
+
+
+LINK_POINTS = [("req", 1), ("rep", 2), ("req", 3), ("rep", 4), ("req", 5), ("rep", 6)]
+LINK_TAIL = [["finish", "right"], ["start"], ["finish", "right"], ["start"], ["finish", "right"]]
+
+
+def link_cases(ctx, rng):
+    """the histories of stream (f)"""
+    def mk(transport, calls, faults, sessions=None):
+        c = {"stream": "links", "transport": transport, "pin": rng.choice(PINS), "acc_id": rng.choice(ACC_IDS), "calls": [list(x) for x in calls], "faults": faults}
+        if sessions:
+            c["sessions"] = sessions
+        if transport == "ble":
+            c.update(fs=rng.choice([64, 185, 512]), chunk=rng.choice([0, 0, 120, 255]), features=rng.choice([0, 0, 1, 2]))
+        if rng.random() < 0.25:
+            c["reverse"] = True
+        return c
+
+    def fault(transport, at, msg=None, nth=1):
+        f = {"at": at, "nth": nth}
+        if msg is not None:
+            f["msg"] = msg
+        if transport == "ble":
+            f["err"] = rng.choice(LINK_ERRORS + ("bleak", "bleak", "notfound" if at == "connect" else "bleak"))
+        elif transport == "ip" and at in ("req", "rep"):
+            f["how"] = rng.choice(["reset", "close"] + (["partial"] if at == "rep" else []))
+        elif transport == "coap" and at in ("req", "rep"):
+            f["how"] = rng.choice(["timeout", "neterr", "rst"])
+        return f
+
+    def state_mutation():
+        msg = rng.choice([2, 4, 6])
+        return {"mutation": {"msg": msg, "where": "outer", "field": 6, "op": rng.choice(state_ops(msg, rng, 3, 3))}}
+
+    def wire_mutation():
+        msg, where = rng.choice([(2, "outer"), (4, "outer"), (6, "outer"), (6, "inner")])
+        ops = wire_ops(wire_template(msg, where), WIRE_EXPECTED[(msg, where)], rng, False, 1, 2, 2, 2)
+        return {"mutation": {"msg": msg, "where": where, "wire": rng.choice(ops)}}
+
+    def adversary():
+        r = rng.random()
+        return "wrong-code" if r < 0.35 else ({"mutation": field_mutation(rng)} if r < 0.6 else (state_mutation() if r < 0.8 else wire_mutation()))
+
+    begin = [["start"], ["finish", "right"]]
+    out = []
+    # every point of the exchange, once, on every transport (quick tier: all of them on BLE, a rotating half elsewhere)
+    for transport in ("ble", "ip", "coap"):
+        pts = LINK_POINTS if transport == "ble" or ctx.budget(False, True) else rng.sample(LINK_POINTS, 3)
+        for at, msg in pts:
+            out.append(mk(transport, begin + LINK_TAIL, [fault(transport, at, msg)]))
+    # BLE: the link goes while a PDU fragment is written / read; connection attempts fail
+    for _ in range(ctx.budget(4, 80)):
+        at = rng.choice(["write", "write", "read", "read", "connect"])
+        out.append(mk("ble", begin + LINK_TAIL, [fault("ble", at, None, rng.randrange(1, 4 if at == "connect" else 14))]))
+    # two losses: both tries of one call, the retry's own M1/M2, one in each of two calls
+    for _ in range(ctx.budget(3, 80)):
+        transport = rng.choice(["ble", "ble", "ble", "ip", "coap"])
+        (a1, m1), (a2, m2) = rng.choice(LINK_POINTS[2:]), rng.choice(LINK_POINTS)
+        n2 = 2 if (a2, m2) == (a1, m1) or m2 <= 2 else rng.choice([1, 2])
+        out.append(mk(transport, begin + LINK_TAIL, [fault(transport, a1, m1), fault(transport, a2, m2, n2)]))
+    # the user types another code / a malformed one first; the link drops while nothing is in flight
+    for transport in ("ble", "ip", "coap"):
+        out.append(mk(transport, [["start"], ["finish", "wrong"]] + LINK_TAIL, []))
+    for transport in ["ble"] + [rng.choice(["ip", "coap"]) for _ in range(ctx.budget(0, 6))] + ["ble"] * ctx.budget(0, 6):
+        out.append(mk(transport, [["start"], ["finish", rng.choice(["malformed", "wrong"])]] + LINK_TAIL, [fault(transport, *rng.choice(LINK_POINTS[2:]))]))
+    for transport in ["ble", rng.choice(["ip", "coap"])] + [rng.choice(["ble", "ip", "coap"]) for _ in range(ctx.budget(0, 12))]:
+        out.append(mk(transport, [["start"], ["drop"]] + LINK_TAIL, []))
+    # the negative half in a LATER attempt: the session a retry / a second call lands in is with a wrong-code accessory or has
+    # one reply altered
+    for transport in ["ble", "ble", "ble", "ip", "coap"] + [rng.choice(["ble", "ip", "coap"]) for _ in range(ctx.budget(0, 60))]:
+        r = rng.random()
+        if r < 0.6:
+            out.append(mk(transport, begin + LINK_TAIL, [fault(transport, *rng.choice(LINK_POINTS[2:5]))], {"2": adversary()}))
+        elif r < 0.8:
+            out.append(mk(transport, begin + LINK_TAIL, [], {"1": adversary()}))
+        else:
+            out.append(mk(transport, [["start"], ["finish", "wrong"]] + LINK_TAIL, [], {"2": adversary()}))
+    # random histories
+    for _ in range(ctx.budget(4, 300)):
+        transport = rng.choice(["ble", "ble", "ip", "coap"])
+        calls = [["start"]]
+        for _ in range(rng.choice([1, 1, 2, 3])):
+            r = rng.random()
+            if r < 0.15:
+                calls.append(["drop"])
+            elif r < 0.3:
+                calls.append(["start"])
+            elif r < 0.4 and transport == "ble":
+                calls.append(["adv"])
+            calls.append(["finish", rng.choice(["right"] * 6 + ["wrong", "wrong", "malformed"])])
+        faults = []
+        for _ in range(rng.choice([0, 1, 1, 2, 2, 3])):
+            at = rng.choice(["req", "rep", "req", "rep", "connect"] + (["write", "read"] if transport == "ble" else []))
+            if at in ("req", "rep"):
+                msg = rng.choice([m for a, m in LINK_POINTS if a == at])
+                faults.append(fault(transport, at, msg, rng.choice([1, 1, 1, 2, 2, 3])))
+            else:
+                faults.append(fault(transport, at, None, rng.randrange(1, 4 if at == "connect" else 30)))
+        sessions = {str(rng.choice([1, 2, 2, 3])): adversary()} if rng.random() < 0.3 else None
+        out.append(mk(transport, calls + LINK_TAIL, faults, sessions))
+    return out
+
+
+def link_level(ctx, rng, rb):
+    for case in link_cases(ctx, rng):
+        env = _Env()
+        try:
+            problems, trace = run_links(ctx, env, case, rb)
+        finally:
+            _quiet_close(env)
+        if len(ctx.samples) < 6 and case["faults"] and case["transport"] == "ble":
+            ctx.sample(dict(case, outcome=[f"{c} -> {o}" for c, o in trace]))
+        for sig, what, ci in problems:
+            ctx.violation(sig, what, dict(case, calls=case["calls"][:ci + 1]))
+    seen = sorted(k.split(":", 2)[1] for k in ctx.dist if k.startswith("links-observed:"))
+    if seen:
+        ctx.notes.append("failing links: on " + "/".join(seen) + " a finish_pairing callable that is called again after a failed call (link lost, or another code typed first) does not restart pair-setup: the accessory "
+                         "has no session for its M3 any more and the call fails although code and accessory are right - async_start_pairing has to be called again (BLE restarts by itself); noted, not asserted")
+
+
+def _quiet_close(env):
+    """cancel what a history left behind (reconnect loops of a lost connection, timers of a fresh pairing) and close its loop"""
+    import asyncio
+    loop = env.loop
+    try:
+        pending = [t for t in asyncio.all_tasks(loop) if not t.done()]
+        for t in pending:
+            t.cancel()
+        if pending:
+            loop.run_until_complete(asyncio.gather(*pending, return_exceptions=True))
+    except Exception:  # noqa: BLE001
+        pass
+    env.close()
+
+
 def replay(ctx, driver, c):
-    if not isinstance(c, dict) or c.get("stream") not in ("history", "interleave"):
+    if not isinstance(c, dict) or c.get("stream") not in ("history", "interleave", "links"):
         return None
     rb = lambda n: bytes(ctx.rng.randrange(256) for _ in range(n))  # noqa: E731
+    if c["stream"] == "links":
+        env = _Env()
+        try:
+            return [list(p) for p in run_links(ctx, env, c, rb)[0]] or None
+        finally:
+            _quiet_close(env)
     if c["stream"] == "interleave":
         return [list(p) for p in run_interleaved(ctx, c, rb)] or None
     env = _Env()
